@@ -631,3 +631,91 @@ pub open spec fn nz_appended(s0: Term<Sub>, s1: Term<Sub>, add: Seq<Term<Blk>>) 
     &&& s1.term.calling_convention == s0.term.calling_convention
     &&& s1.term.blocks@ =~= s0.term.blocks@ + add
 }
+
+// ---- the composition: hypotheses on the input of normalize_basic ---------------------------------------------------------------------
+
+/// HYPOTHESIS (names): no term of the program carries the name of the artificial sink function or of the artificial sink block
+pub open spec fn nz_no_sink_names(prog: Tid, subs: Map<Tid, Term<Sub>>) -> bool {
+    forall |p: NzPos| #[trigger] nz_pos_ok(subs, p) ==> nz_tid_at(prog, subs, p) != nz_sink_sub() && nz_tid_at(prog, subs, p) != nz_sink_blk(Seq::<char>::empty())
+}
+
+/// HYPOTHESIS (name spaces of the extractor): a tid that a block names (branch target, return target, hint) is never the tid of
+/// a function or of an extern symbol, nor the name of the artificial sink function
+pub open spec fn nz_namespace(subs: Map<Tid, Term<Sub>>, ext: Map<Tid, ExternSymbol>) -> bool {
+    forall |k: Tid, i: int, u: Tid| #[trigger] nz_blk_at(subs, k, i, subs[k].term.blocks@[i].tid) && #[trigger] nz_names(subs[k].term.blocks@[i], u)
+        ==> !nz_is_sub(subs, u) && !ext.contains_key(u) && u != nz_sink_sub()
+}
+
+/// the key of a function is its tid (how the extractor fills the map)
+pub open spec fn nz_keys_are_tids(subs: Map<Tid, Term<Sub>>) -> bool {
+    forall |k: Tid| #[trigger] subs.contains_key(k) ==> subs[k].tid == k
+}
+
+/// every term tid of `subs1` is a term tid of `subs0`; every function of `subs1` is a function of `subs0` with the same tid;
+/// what a block of `subs1` names, a block of `subs0` names
+pub open spec fn nz_sub_program(prog: Tid, subs0: Map<Tid, Term<Sub>>, subs1: Map<Tid, Term<Sub>>) -> bool {
+    &&& subs1.dom() =~= subs0.dom()
+    &&& forall |k: Tid| #[trigger] subs1.contains_key(k) ==> subs1[k].tid == subs0[k].tid
+    &&& forall |p: NzPos| #[trigger] nz_pos_ok(subs1, p) ==> exists |q: NzPos| #[trigger] nz_pos_ok(subs0, q) && nz_tid_at(prog, subs0, q) == nz_tid_at(prog, subs1, p)
+    &&& forall |k: Tid, i: int, u: Tid| #[trigger] nz_blk_at(subs1, k, i, subs1[k].term.blocks@[i].tid) && #[trigger] nz_names(subs1[k].term.blocks@[i], u)
+            ==> exists |k0: Tid, i0: int| #[trigger] nz_blk_at(subs0, k0, i0, subs0[k0].term.blocks@[i0].tid) && nz_names(subs0[k0].term.blocks@[i0], u)
+}
+
+/// normalize_basic as the chain of its five passes (each with its postcondition): `s1` .. `s4` are the programs in between
+pub open spec fn nz_chain(prog: Tid, s0: Map<Tid, Term<Sub>>, ext: Map<Tid, ExternSymbol>, s1: Map<Tid, Term<Sub>>, s2: Map<Tid, Term<Sub>>,
+                          s3: Map<Tid, Term<Sub>>, s4: Map<Tid, Term<Sub>>, s5: Map<Tid, Term<Sub>>, known: Set<Tid>, nr: Set<Tid>) -> bool {
+    // 1. duplicate term identifiers are removed
+    &&& nz_dedup_post(s0, s1) && nz_unique(prog, s1) && nz_dedup_entries(prog, s0, s1)
+    // 2. the artificial sink function is added
+    &&& nz_sink_added(s1, s2)
+    // 3. references to tids that do not exist go to the artificial sinks
+    &&& nz_known_set(known, s2, ext) && nz_refs_post(s2, s3, known) && nz_unique(prog, s3) && nz_names_closed(s3)
+    // 4. blocks contained in several functions are copied
+    &&& nz_uniq_post(prog, s3, s4)
+    // 5. calls to non-returning functions return to the artificial sink block of the caller
+    &&& nz_nonret_set(nr, s4) && nz_noret_post(s4, s5, ext, nr)
+}
+
+pub open spec fn nz_basic_post(prog: Tid, s0: Map<Tid, Term<Sub>>, ext: Map<Tid, ExternSymbol>, s5: Map<Tid, Term<Sub>>) -> bool {
+    exists |s1: Map<Tid, Term<Sub>>, s2: Map<Tid, Term<Sub>>, s3: Map<Tid, Term<Sub>>, s4: Map<Tid, Term<Sub>>, known: Set<Tid>, nr: Set<Tid>|
+        #[trigger] nz_chain(prog, s0, ext, s1, s2, s3, s4, s5, known, nr)
+}
+
+// ---- property clauses on the result ------------------------------------------------------------------------------------------------
+
+/// PROPERTY CLAUSE "every intraprocedural target is a block of the same function" (and so "every direct jump and return
+/// target exists"): whatever a block of a function names -- target of a (conditional) branch, return target of a call,
+/// indirect-jump target hint -- is the tid of a block listed in THAT function
+pub open spec fn nz_intra_ok(subs: Map<Tid, Term<Sub>>) -> bool {
+    forall |k: Tid, i: int, u: Tid| #[trigger] nz_blk_at(subs, k, i, subs[k].term.blocks@[i].tid) && #[trigger] nz_names(subs[k].term.blocks@[i], u)
+        ==> exists |i2: int| #[trigger] nz_blk_at(subs, k, i2, u)
+}
+
+/// PROPERTY CLAUSE "every function still starts with its original entry block", for the functions whose entry-block tid
+/// occurs nowhere else in the input
+pub open spec fn nz_entries_kept(prog: Tid, subs0: Map<Tid, Term<Sub>>, subs5: Map<Tid, Term<Sub>>) -> bool {
+    forall |k: Tid| #[trigger] subs0.contains_key(k) && nz_alone(prog, subs0, NzPos::Blk(k, 0)) ==>
+        subs5.contains_key(k) && subs5[k].term.blocks@.len() > 0 && subs5[k].term.blocks@[0].tid == subs0[k].term.blocks@[0].tid
+}
+
+/// ... after the last pass: what a block names is a block of the same function, or it is the name of the function's artificial
+/// sink block and the function lists a block carrying an artificial-sink name with the function's suffix.  (That such a block IS
+/// the sink block -- no other block of the function has a name of this shape -- is a fact about names that is not decided here.)
+pub open spec fn nz_intra_ok_mod_sink(subs: Map<Tid, Term<Sub>>) -> bool {
+    forall |k: Tid, i: int, u: Tid| #[trigger] nz_blk_at(subs, k, i, subs[k].term.blocks@[i].tid) && #[trigger] nz_names(subs[k].term.blocks@[i], u)
+        ==> (exists |i2: int| #[trigger] nz_blk_at(subs, k, i2, u))
+            || (u == nz_sink_blk(nz_sfx(subs[k].tid)) && nz_has_sink(subs[k].term.blocks@, nz_sfx(subs[k].tid)))
+}
+
+/// PROPERTY CLAUSE "calls to non-returning functions return to the caller's artificial sink": in every function but the
+/// artificial sink function, a direct call with a return target whose target is an extern symbol flagged no_return, or (no
+/// extern symbol and) a function without any return instruction, returns to a tid carrying the artificial-sink name of the caller
+pub open spec fn nz_noret_ok(subs: Map<Tid, Term<Sub>>, ext: Map<Tid, ExternSymbol>) -> bool {
+    forall |k: Tid, i: int, j: int| #[trigger] nz_pos_ok(subs, NzPos::Jmp(k, i, j)) && subs[k].tid != nz_sink_sub() ==>
+        match subs[k].term.blocks@[i].term.jmps@[j].term {
+            Jmp::Call { target, return_: Some(r) } =>
+                ((ext.contains_key(target) && ext[target].no_return) || (!ext.contains_key(target) && nz_nonret(subs, target)))
+                    ==> nz_is_sink_blk(r, nz_sfx(subs[k].tid)),
+            _ => true,
+        }
+}
